@@ -29,7 +29,9 @@ var c11Exts = []extSpec{
 	{"footnote", func(t string) bool { return strings.Contains(t, "[^") || t == "[" || t == "^" }, "x:linkify,table,strike,tasklist,deflist,typographer"},
 	{"deflist", hasAny(":"), "x:linkify,table,strike,tasklist,footnote,typographer"},
 	{"typographer", hasAny("'\"-.<>"), "x:linkify,table,strike,tasklist,deflist,footnote"},
-	{"linkify", func(t string) bool { return strings.ContainsAny(t, ":@") || strings.Contains(strings.ToLower(t), "www.") || t == "w" || t == "." }, "x:table,strike,tasklist,deflist,footnote,typographer"},
+	{"linkify", func(t string) bool {
+		return strings.ContainsAny(t, ":@") || strings.Contains(strings.ToLower(t), "www.") || t == "w" || t == "."
+	}, "x:table,strike,tasklist,deflist,footnote,typographer"},
 }
 
 var c11Alpha = core.Union(core.ABlock, core.AInline, core.AExt, []string{"'", ".", "\t", "^", "{", "}"})
